@@ -29,7 +29,7 @@ type Callback struct {
 }
 
 // PanicKinds are the panic values used by C06.
-var PanicKinds = []string{"nil", "error", "string", "runtime", "nilderef", "struct", "custom", "ctxcanceled", "ctxwrapped", "typednil", "slice", "map", "slicestruct"}
+var PanicKinds = []string{"nil", "error", "string", "runtime", "nilderef", "struct", "custom", "ctxcanceled", "ctxwrapped", "typednil", "slice", "map", "slicestruct", "moduleerror"}
 
 // Work is one piece of managed work started on a module while it is online.
 type Work struct {
@@ -53,6 +53,13 @@ type Work struct {
 	// BackoffMS milliseconds before they are run again).
 	Fail      bool `json:"fail,omitempty"`
 	BackoffMS int  `json:"backoff_ms,omitempty"`
+	// Returns (service workers): what the function returns once it is through: "" nil; "restartnow" modules.ErrRestartNow
+	// (run again at once; at most in its first three runs); "ctxcanceled" context.Canceled (finished, no restart);
+	// "error" a plain error in every run (restart after the back-off of BackoffMS, default 1 ms).
+	Returns string `json:"returns,omitempty"`
+	// Requeue (tasks): the first Requeue runs return after 300 us and queue the task again from inside; Mode, Panic
+	// etc. apply to the run after them (the launch step waits for that run to begin).
+	Requeue int `json:"requeue,omitempty"`
 	// NoWait: the launch step does not wait for the item to begin (a task that cannot get a time slot while the
 	// microtask limit is used up).
 	NoWait bool `json:"no_wait,omitempty"`
@@ -127,6 +134,9 @@ type Scenario struct {
 	// ManageAfterFailedStart: the steps after a failed Start are executed instead of skipped (retrying with a
 	// management pass is what a caller with module management does).
 	ManageAfterFailedStart bool `json:"manage_after_failed_start,omitempty"`
+	// ReportsCap > 0: the error reporting channel holds this many reports and its consumer is slow: it only reads
+	// after Start, a management pass or Shutdown has returned. A report that found room stays until it is read.
+	ReportsCap int `json:"reports_cap,omitempty"`
 	// UnbufferedReports: the error reporting channel has no buffer; a receiver is waiting on it all the time.
 	UnbufferedReports bool `json:"unbuffered_reports,omitempty"`
 }
